@@ -80,10 +80,10 @@ package lineintersector
 //@   requires [proper2] (cross2(line2Start[0], line2Start[1], line2End[0], line2End[1], line1Start[0], line1Start[1]) > 0.0 && cross2(line2Start[0], line2Start[1], line2End[0], line2End[1], line1End[0], line1End[1]) < 0.0) || (cross2(line2Start[0], line2Start[1], line2End[0], line2End[1], line1Start[0], line1Start[1]) < 0.0 && cross2(line2Start[0], line2Start[1], line2End[0], line2End[1], line1End[0], line1End[1]) > 0.0)
 //@   ensures len(res) >= 2 && fresh(res) && onSeg(res[0], res[1], line1Start[0], line1Start[1], line1End[0], line1End[1]) && onSeg(res[0], res[1], line2Start[0], line2Start[1], line2End[0], line2End[1])
 //@   modifies nothing
-//@   at stmt1: use crossMeets(line1Start[0], line1Start[1], line1End[0], line1End[1], line2Start[0], line2Start[1], line2End[0], line2End[1])
-//@   at stmt1: use paramOnSeg(line1Start[0], line1Start[1], line1End[0], line1End[1], line1Start[0] + crossT(line1Start[0], line1Start[1], line1End[0], line1End[1], line2Start[0], line2Start[1], line2End[0], line2End[1]) * (line1End[0] - line1Start[0]), line1Start[1] + crossT(line1Start[0], line1Start[1], line1End[0], line1End[1], line2Start[0], line2Start[1], line2End[0], line2End[1]) * (line1End[1] - line1Start[1]), crossT(line1Start[0], line1Start[1], line1End[0], line1End[1], line2Start[0], line2Start[1], line2End[0], line2End[1]))
-//@   at stmt1: use paramOnSeg(line2Start[0], line2Start[1], line2End[0], line2End[1], line2Start[0] + crossU(line1Start[0], line1Start[1], line1End[0], line1End[1], line2Start[0], line2Start[1], line2End[0], line2End[1]) * (line2End[0] - line2Start[0]), line2Start[1] + crossU(line1Start[0], line1Start[1], line1End[0], line1End[1], line2Start[0], line2Start[1], line2End[0], line2End[1]) * (line2End[1] - line2Start[1]), crossU(line1Start[0], line1Start[1], line1End[0], line1End[1], line2Start[0], line2Start[1], line2End[0], line2End[1]))
-//@   at stmt1: use linesMeetOnce(line1Start[0], line1Start[1], line1End[0], line1End[1], line2Start[0], line2Start[1], line2End[0], line2End[1], intPt[0], intPt[1], line1Start[0] + crossT(line1Start[0], line1Start[1], line1End[0], line1End[1], line2Start[0], line2Start[1], line2End[0], line2End[1]) * (line1End[0] - line1Start[0]), line1Start[1] + crossT(line1Start[0], line1Start[1], line1End[0], line1End[1], line2Start[0], line2Start[1], line2End[0], line2End[1]) * (line1End[1] - line1Start[1]))
+//@   at stmt[intPt := intersectionWithNormalization(line1Start, line1End, line2Start, line2End)]: use crossMeets(line1Start[0], line1Start[1], line1End[0], line1End[1], line2Start[0], line2Start[1], line2End[0], line2End[1])
+//@   at stmt[intPt := intersectionWithNormalization(line1Start, line1End, line2Start, line2End)]: use paramOnSeg(line1Start[0], line1Start[1], line1End[0], line1End[1], line1Start[0] + crossT(line1Start[0], line1Start[1], line1End[0], line1End[1], line2Start[0], line2Start[1], line2End[0], line2End[1]) * (line1End[0] - line1Start[0]), line1Start[1] + crossT(line1Start[0], line1Start[1], line1End[0], line1End[1], line2Start[0], line2Start[1], line2End[0], line2End[1]) * (line1End[1] - line1Start[1]), crossT(line1Start[0], line1Start[1], line1End[0], line1End[1], line2Start[0], line2Start[1], line2End[0], line2End[1]))
+//@   at stmt[intPt := intersectionWithNormalization(line1Start, line1End, line2Start, line2End)]: use paramOnSeg(line2Start[0], line2Start[1], line2End[0], line2End[1], line2Start[0] + crossU(line1Start[0], line1Start[1], line1End[0], line1End[1], line2Start[0], line2Start[1], line2End[0], line2End[1]) * (line2End[0] - line2Start[0]), line2Start[1] + crossU(line1Start[0], line1Start[1], line1End[0], line1End[1], line2Start[0], line2Start[1], line2End[0], line2End[1]) * (line2End[1] - line2Start[1]), crossU(line1Start[0], line1Start[1], line1End[0], line1End[1], line2Start[0], line2Start[1], line2End[0], line2End[1]))
+//@   at stmt[intPt := intersectionWithNormalization(line1Start, line1End, line2Start, line2End)]: use linesMeetOnce(line1Start[0], line1Start[1], line1End[0], line1End[1], line2Start[0], line2Start[1], line2End[0], line2End[1], intPt[0], intPt[1], line1Start[0] + crossT(line1Start[0], line1Start[1], line1End[0], line1End[1], line2Start[0], line2Start[1], line2End[0], line2End[1]) * (line1End[0] - line1Start[0]), line1Start[1] + crossT(line1Start[0], line1Start[1], line1End[0], line1End[1], line2Start[0], line2Start[1], line2End[0], line2End[1]) * (line1End[1] - line1Start[1]))
 
 //@ func RobustLineIntersector.computeLineOnLineIntersection
 //@   floats real
@@ -97,27 +97,27 @@ package lineintersector
 //@   ensures [point-exact] data.intersectionType == 1 ==> onSeg(data.intersectionPoints[0][0], data.intersectionPoints[0][1], line1Start[0], line1Start[1], line1End[0], line1End[1]) && onSeg(data.intersectionPoints[0][0], data.intersectionPoints[0][1], line2Start[0], line2Start[1], line2End[0], line2End[1])
 //@   ensures [proper] data.isProper <==> data.intersectionType == 1 && !touches(line1Start[0], line1Start[1], line1End[0], line1End[1], line2Start[0], line2Start[1], line2End[0], line2End[1])
 //@   modifies *data, data.intersectionPoints[0]
-//@   at stmt23: assert data.intersectionPoints[0][0] == line1Start[0] && data.intersectionPoints[0][1] == line1Start[1]
-//@   at stmt23: assert onSeg(data.intersectionPoints[0][0], data.intersectionPoints[0][1], line1Start[0], line1Start[1], line1End[0], line1End[1]) && onSeg(data.intersectionPoints[0][0], data.intersectionPoints[0][1], line2Start[0], line2Start[1], line2End[0], line2End[1])
-//@   at stmt25: assert data.intersectionPoints[0][0] == line1End[0] && data.intersectionPoints[0][1] == line1End[1]
-//@   at stmt25: assert onSeg(data.intersectionPoints[0][0], data.intersectionPoints[0][1], line1Start[0], line1Start[1], line1End[0], line1End[1]) && onSeg(data.intersectionPoints[0][0], data.intersectionPoints[0][1], line2Start[0], line2Start[1], line2End[0], line2End[1])
-//@   at stmt27: assert data.intersectionPoints[0][0] == line2Start[0] && data.intersectionPoints[0][1] == line2Start[1]
-//@   at stmt27: use touchOnSeg(line1Start[0], line1Start[1], line1End[0], line1End[1], line2Start[0], line2Start[1], line2End[0], line2End[1])
-//@   at stmt27: assert onSeg(data.intersectionPoints[0][0], data.intersectionPoints[0][1], line1Start[0], line1Start[1], line1End[0], line1End[1]) && onSeg(data.intersectionPoints[0][0], data.intersectionPoints[0][1], line2Start[0], line2Start[1], line2End[0], line2End[1])
-//@   at stmt29: assert data.intersectionPoints[0][0] == line2End[0] && data.intersectionPoints[0][1] == line2End[1]
-//@   at stmt29: use crossSwap(line2Start[0], line2Start[1], line2End[0], line2End[1], line1Start[0], line1Start[1])
-//@   at stmt29: use crossSwap(line2Start[0], line2Start[1], line2End[0], line2End[1], line1End[0], line1End[1])
-//@   at stmt29: use touchOnSeg(line1Start[0], line1Start[1], line1End[0], line1End[1], line2End[0], line2End[1], line2Start[0], line2Start[1])
-//@   at stmt29: assert onSeg(data.intersectionPoints[0][0], data.intersectionPoints[0][1], line1Start[0], line1Start[1], line1End[0], line1End[1]) && onSeg(data.intersectionPoints[0][0], data.intersectionPoints[0][1], line2Start[0], line2Start[1], line2End[0], line2End[1])
-//@   at stmt31: assert data.intersectionPoints[0][0] == line1Start[0] && data.intersectionPoints[0][1] == line1Start[1]
-//@   at stmt31: use touchOnSeg(line2Start[0], line2Start[1], line2End[0], line2End[1], line1Start[0], line1Start[1], line1End[0], line1End[1])
-//@   at stmt31: assert onSeg(data.intersectionPoints[0][0], data.intersectionPoints[0][1], line1Start[0], line1Start[1], line1End[0], line1End[1]) && onSeg(data.intersectionPoints[0][0], data.intersectionPoints[0][1], line2Start[0], line2Start[1], line2End[0], line2End[1])
-//@   at stmt33: assert data.intersectionPoints[0][0] == line1End[0] && data.intersectionPoints[0][1] == line1End[1]
-//@   at stmt33: use crossSwap(line1Start[0], line1Start[1], line1End[0], line1End[1], line2Start[0], line2Start[1])
-//@   at stmt33: use crossSwap(line1Start[0], line1Start[1], line1End[0], line1End[1], line2End[0], line2End[1])
-//@   at stmt33: use touchOnSeg(line2Start[0], line2Start[1], line2End[0], line2End[1], line1End[0], line1End[1], line1Start[0], line1Start[1])
-//@   at stmt33: assert onSeg(data.intersectionPoints[0][0], data.intersectionPoints[0][1], line1Start[0], line1Start[1], line1End[0], line1End[1]) && onSeg(data.intersectionPoints[0][0], data.intersectionPoints[0][1], line2Start[0], line2Start[1], line2End[0], line2End[1])
-//@   at stmt35: assert onSeg(data.intersectionPoints[0][0], data.intersectionPoints[0][1], line1Start[0], line1Start[1], line1End[0], line1End[1]) && onSeg(data.intersectionPoints[0][0], data.intersectionPoints[0][1], line2Start[0], line2Start[1], line2End[0], line2End[1])
+//@   at stmt[copy(data.intersectionPoints[0], line1Start)]: assert data.intersectionPoints[0][0] == line1Start[0] && data.intersectionPoints[0][1] == line1Start[1]
+//@   at stmt[copy(data.intersectionPoints[0], line1Start)]: assert onSeg(data.intersectionPoints[0][0], data.intersectionPoints[0][1], line1Start[0], line1Start[1], line1End[0], line1End[1]) && onSeg(data.intersectionPoints[0][0], data.intersectionPoints[0][1], line2Start[0], line2Start[1], line2End[0], line2End[1])
+//@   at stmt[copy(data.intersectionPoints[0], line1End)]: assert data.intersectionPoints[0][0] == line1End[0] && data.intersectionPoints[0][1] == line1End[1]
+//@   at stmt[copy(data.intersectionPoints[0], line1End)]: assert onSeg(data.intersectionPoints[0][0], data.intersectionPoints[0][1], line1Start[0], line1Start[1], line1End[0], line1End[1]) && onSeg(data.intersectionPoints[0][0], data.intersectionPoints[0][1], line2Start[0], line2Start[1], line2End[0], line2End[1])
+//@   at stmt[copy(data.intersectionPoints[0], line2Start)]: assert data.intersectionPoints[0][0] == line2Start[0] && data.intersectionPoints[0][1] == line2Start[1]
+//@   at stmt[copy(data.intersectionPoints[0], line2Start)]: use touchOnSeg(line1Start[0], line1Start[1], line1End[0], line1End[1], line2Start[0], line2Start[1], line2End[0], line2End[1])
+//@   at stmt[copy(data.intersectionPoints[0], line2Start)]: assert onSeg(data.intersectionPoints[0][0], data.intersectionPoints[0][1], line1Start[0], line1Start[1], line1End[0], line1End[1]) && onSeg(data.intersectionPoints[0][0], data.intersectionPoints[0][1], line2Start[0], line2Start[1], line2End[0], line2End[1])
+//@   at stmt[copy(data.intersectionPoints[0], line2End)]: assert data.intersectionPoints[0][0] == line2End[0] && data.intersectionPoints[0][1] == line2End[1]
+//@   at stmt[copy(data.intersectionPoints[0], line2End)]: use crossSwap(line2Start[0], line2Start[1], line2End[0], line2End[1], line1Start[0], line1Start[1])
+//@   at stmt[copy(data.intersectionPoints[0], line2End)]: use crossSwap(line2Start[0], line2Start[1], line2End[0], line2End[1], line1End[0], line1End[1])
+//@   at stmt[copy(data.intersectionPoints[0], line2End)]: use touchOnSeg(line1Start[0], line1Start[1], line1End[0], line1End[1], line2End[0], line2End[1], line2Start[0], line2Start[1])
+//@   at stmt[copy(data.intersectionPoints[0], line2End)]: assert onSeg(data.intersectionPoints[0][0], data.intersectionPoints[0][1], line1Start[0], line1Start[1], line1End[0], line1End[1]) && onSeg(data.intersectionPoints[0][0], data.intersectionPoints[0][1], line2Start[0], line2Start[1], line2End[0], line2End[1])
+//@   at stmt[copy(data.intersectionPoints[0], line1Start)]#2: assert data.intersectionPoints[0][0] == line1Start[0] && data.intersectionPoints[0][1] == line1Start[1]
+//@   at stmt[copy(data.intersectionPoints[0], line1Start)]#2: use touchOnSeg(line2Start[0], line2Start[1], line2End[0], line2End[1], line1Start[0], line1Start[1], line1End[0], line1End[1])
+//@   at stmt[copy(data.intersectionPoints[0], line1Start)]#2: assert onSeg(data.intersectionPoints[0][0], data.intersectionPoints[0][1], line1Start[0], line1Start[1], line1End[0], line1End[1]) && onSeg(data.intersectionPoints[0][0], data.intersectionPoints[0][1], line2Start[0], line2Start[1], line2End[0], line2End[1])
+//@   at stmt[copy(data.intersectionPoints[0], line1End)]#2: assert data.intersectionPoints[0][0] == line1End[0] && data.intersectionPoints[0][1] == line1End[1]
+//@   at stmt[copy(data.intersectionPoints[0], line1End)]#2: use crossSwap(line1Start[0], line1Start[1], line1End[0], line1End[1], line2Start[0], line2Start[1])
+//@   at stmt[copy(data.intersectionPoints[0], line1End)]#2: use crossSwap(line1Start[0], line1Start[1], line1End[0], line1End[1], line2End[0], line2End[1])
+//@   at stmt[copy(data.intersectionPoints[0], line1End)]#2: use touchOnSeg(line2Start[0], line2Start[1], line2End[0], line2End[1], line1End[0], line1End[1], line1Start[0], line1Start[1])
+//@   at stmt[copy(data.intersectionPoints[0], line1End)]#2: assert onSeg(data.intersectionPoints[0][0], data.intersectionPoints[0][1], line1Start[0], line1Start[1], line1End[0], line1End[1]) && onSeg(data.intersectionPoints[0][0], data.intersectionPoints[0][1], line2Start[0], line2Start[1], line2End[0], line2End[1])
+//@   at stmt[data.intersectionPoints[0] = intersection(data, line1Start, line1End, line2Start, line2End)]: assert onSeg(data.intersectionPoints[0][0], data.intersectionPoints[0][1], line1Start[0], line1Start[1], line1End[0], line1End[1]) && onSeg(data.intersectionPoints[0][0], data.intersectionPoints[0][1], line2Start[0], line2Start[1], line2End[0], line2End[1])
 
 //@ func lineintersection.NewResult
 //@   ensures res.intersectionType == intersectionType && res.intersection == intersection
